@@ -20,6 +20,7 @@ import c10_join as J
 import c10_nestmap as NM
 import c10_picker as PK
 import c10_runner as R
+import c10_simpgen as SG
 import c10_wrapsrc as WS
 import mapgen
 import pipegen
@@ -51,6 +52,10 @@ RULE = ("an environment with a pipegen DAG (1-5 term-building functions: tuple o
         "p.join(q, r), a bare PipeFunc operand (the shared step of the other pipeline or any of its functions, possibly twice), p | p, p | reconfigured copy of p; "
         "every output of every operand is compared with the joined pipeline (call, defaults left out, map) unless another operand produces one of its roots; the "
         "model step is PF.Rw.Join.joinAll (accept/refuse, class, reason, summary, values) - also for the two-pipeline joins of the other streams; "
+        "s5: every 10th case (k % 10 == 0) is a SIMPLIFY case (harness/c10_simpgen.py): 2-4 classes of 1-3 functions with equal root arguments feeding each other "
+        "through head and NON-head outputs (tuple components too), the last class consuming every class nobody consumed, output names o{perm(i)} in shuffled (75 %) / "
+        "reversed (10 %) / topological (15 %) alphabetical order; simplified_pipeline for the final leaf (70 %) or any output, both modes, sometimes twice, then 0-2 further "
+        "ops; 30 % of the pipegen DAGs of the other streams get their outputs relabelled by a random permutation as well; "
         "a separate malformed stream (unused rename keys, capturing renames, unknown outputs, dropped "
         "consumed outputs, drop/replace of an unknown output, add of a duplicate output) only demands refusal-or-consistency and an unchanged original; non-trivial = at least one rewrite other than "
         "copy/pickle was performed on a pipeline with >= 2 functions; distinct by (environment, ops)")
@@ -107,6 +112,8 @@ def gen_env(rng, kind):
         PK.assign(rng, desc["funcs"])
         return [["p0", {"kind": "map", "desc": desc}]]
     desc = pipegen.gen_dag(rng, max_funcs=rng.choice([2, 3, 4, 5]), p_tuple=0.3, p_bound=0.2)
+    if rng.random() < 0.3:
+        SG.relabel_outputs(desc, rng)  # s5: output names whose alphabetical order is not the topological order (`_sort` in _simplify.py, sorted nest outputs)
     PK.assign(rng, desc["funcs"])      # ext5: custom output_picker styles (dict / reversed tuple / object) on tuple-output functions
     env = [["p0", {"kind": "call", "desc": desc, "explicit_defaults": rng.random() < 0.5}]]
     if rng.random() < 0.4:
@@ -597,6 +604,49 @@ def gen_split_case(rng, k_case):
     return {"env": env, "ops": ops}, runner
 
 
+def gen_simplify_case(rng, k_case):
+    """s5 (seeded change C10-s5-A: what a combined group exports depended on its POSITION in the list of groups, which is sorted by head name):
+    a pipeline of 2-4 classes of functions with equal root arguments feeding each other through head and NON-head outputs, output names in an
+    order unrelated to the topology (harness/c10_simpgen.py); simplified_pipeline for the final leaf (70 %) or any output, both modes, possibly
+    twice; then 0-2 further ops on the result (incl. another simplify / nest / rename / scope and in-place mutations)."""
+    desc, info = SG.gen_desc(rng)
+    pipegen.assign_consts(rng, desc["funcs"])
+    PK.assign(rng, desc["funcs"])
+    env = [["p0", {"kind": "call", "desc": desc, "explicit_defaults": rng.random() < 0.5}]]
+    runner = R.Runner(env)
+    if runner.halted:
+        return {"env": env, "ops": []}, runner
+    runner.counts.append(f"simpgen:classes:{info['classes']}:names-{info['names']}")
+    ops = []
+    outs = sorted(runner.env["p0"].p.all_output_names)
+    targets = [info["leaf"] if rng.random() < 0.7 else rng.choice(outs)]
+    if rng.random() < 0.3:
+        targets.append(rng.choice(outs))
+    for j, o in enumerate(targets):
+        ops.append({"op": "simplify", "src": "p0", "dst": f"p{j + 1}", "out": o, "conservative": rng.random() < 0.3})
+        ok = runner.apply(ops[-1])
+        if runner.halted:
+            break
+        if ok:
+            try:
+                runner.counts += SG.result_categories(runner.env[ops[-1]["dst"]].p, R.NestedPipeFunc, R.at_least_tuple)
+            except Exception as e:  # noqa: BLE001
+                runner.counts.append(f"simpgen:unreadable:{exc_enum(e)}")
+        else:
+            runner.counts.append("simpgen:refused")
+    for k in range(rng.choice([0, 0, 0, 1, 2])):
+        if runner.halted:
+            break
+        try:
+            op = propose(rng, runner, k + 3, allow_mutation=True)
+        except Exception as e:  # noqa: BLE001
+            runner.inconsistent(e, ops)
+            break
+        ops.append(op)
+        runner.apply(op)
+    return {"env": env, "ops": ops}, runner
+
+
 P_MUTATE_AFTER = 0.5
 SEEN: dict = {}      # (rewrite kind, mutation kind, new|old) -> proposals in this run (reset by `run`; steers the choice only)
 
@@ -767,6 +817,21 @@ CORPUS: list = [
              {"op": "join_x", "src": "q0", "others": [{"p": "p0"}], "dst": "j2", "via": "or"}]},
     {"env": [SH("p0", [J.F("f0", ["q0", "r0"], ["o0"])]), SH("q0", [J.F("g0", ["o0", "r2"], ["q0"])])],
      "ops": [{"op": "join_x", "src": "p0", "others": [{"p": "q0"}], "dst": "j0", "via": "or"}]},
+    # seeded change C10-s5-A: two combined groups, {b, z} (head `z`) and {d, e} (head `e`); the NON-head output `b` of the first is consumed by `g` of
+    # the second, and the groups are sorted by head name, so the producing group comes LAST: it must still export `b`.  Control: head `c` < `e`;
+    # the consumer with a default for `b` (a lost export would silently be replaced by the default); three groups in reverse alphabetical order
+    {"env": call_env(F("f1", ["a"], ["b"]), F("f2", ["b"], ["z"]), F("g", ["b", "z", "x"], ["d"]), F("h", ["d"], ["e"])),
+     "ops": [{"op": "simplify", "src": "p0", "dst": "p1", "out": "e", "conservative": False},
+             {"op": "simplify", "src": "p0", "dst": "p2", "out": "e", "conservative": True},
+             {"op": "simplify", "src": "p0", "dst": "p3", "out": "d", "conservative": False}]},
+    {"env": call_env(F("f1", ["a"], ["b"]), F("f2", ["b"], ["c"]), F("g", ["b", "c", "x"], ["d"]), F("h", ["d"], ["e"])),
+     "ops": [{"op": "simplify", "src": "p0", "dst": "p1", "out": "e", "conservative": False}]},
+    {"env": call_env(F("f1", ["a"], ["b"]), F("f2", ["b"], ["z"]), F("g", ["z", "x", "b"], ["d"], defaults=[["b", {"s": "dflt:b"}]]), F("h", ["d"], ["e"])),
+     "ops": [{"op": "simplify", "src": "p0", "dst": "p1", "out": "e", "conservative": False}]},
+    {"env": call_env(F("f1", ["a"], ["m1", "m2"]), F("f2", ["m1"], ["z"]), F("g1", ["m2", "z", "x"], ["n"]), F("g2", ["n", "m1"], ["k"]),
+                     F("h1", ["n", "k", "m2", "y"], ["c"]), F("h2", ["c"], ["a9"])),
+     "ops": [{"op": "simplify", "src": "p0", "dst": "p1", "out": "a9", "conservative": False},
+             {"op": "pickle", "src": "p1", "dst": "p2"}]},
     # seeded change C10-s3-A: a nest that exports EXACTLY the tuple of its multi-output leaf, the leaf having a custom output_picker
     # (dict result / reversed tuple / object): nest_funcs with the leaf's tuple, in another order, plus the intermediate (control),
     # NestedPipeFunc built by hand, simplified_pipeline choosing the tuple by itself; then renamed / scoped / pickled
@@ -948,7 +1013,8 @@ def run(ctx):
     for k in range(ctx.n(640, 12000)):
         try:
             case, runner = (gen_rename_case(rng, k) if k % 5 == 4 else gen_nestmap_case(rng, k) if k % 5 == 2 else
-                            gen_split_case(rng, k) if k % 10 == 6 else J.gen_join_case(rng, k, R, propose_mutation) if k % 10 == 8 else gen_case(rng, k))
+                            gen_split_case(rng, k) if k % 10 == 6 else J.gen_join_case(rng, k, R, propose_mutation) if k % 10 == 8 else
+                            gen_simplify_case(rng, k) if k % 10 == 0 else gen_case(rng, k))
         except Exception as e:  # noqa: BLE001   the generator builds valid pipelines only
             ctx.count(f"generator-exc:{exc_enum(e)}")
             raise
